@@ -23,6 +23,9 @@ def _patches(props):
     for fn in sorted(glob.glob(os.path.join(env.VERIF, "mutants", "C*-*.diff"))):
         prop = os.path.basename(fn).split("-")[0]
         out.append((prop, fn, os.path.basename(fn), "HEAD"))
+    # extras (spec coverage beyond the listed properties): mutants/extra/<name>/<mutant>.diff, checked by ./check X-<name>
+    for fn in sorted(glob.glob(os.path.join(env.VERIF, "mutants", "extra", "*", "*.diff"))):
+        out.append(("X-" + os.path.basename(os.path.dirname(fn)), fn, "extra/%s/%s" % (os.path.basename(os.path.dirname(fn)), os.path.basename(fn)), "HEAD"))
     for d in sorted(glob.glob(os.path.join(env.VERIF, "seeded", "*"))):
         meta = os.path.join(d, "meta.json")
         patch = os.path.join(d, "patch.diff")
